@@ -1,7 +1,7 @@
 (* Properties/C12.v — Data() recovers the values the kernel encoded. *)
 From Coq Require Import List Ascii String NArith ZArith Bool Arith.
 Import ListNotations.
-Require Import KV Trim Header Parser ParseProofs ParseBody.
+Require Import KV Trim Header Parser ParseProofs ParseBody ParseEnrich.
 Require Hex.
 
 (* unsafe strings travel as upper-case hex: decoding gives back every byte string *)
@@ -26,6 +26,15 @@ Theorem C12_fields_extracted : forall d fs, Forall field_ok fs -> Forall ordinar
   forall f, In f fs -> kv_get (fst f) (extract (S d) (body fs) []) = Some (text_of (snd f), value_of (snd f)).
 Proof. exact extract_body. Qed.
 
+(* Data() itself, for every record type the enrichment switch has no case for: a body written the way the
+   kernel writes it comes out with every ordinary field (a key none of the common enrichment steps reads,
+   rewrites or creates) carrying the value that was written *)
+Theorem C12_data_keeps_plain_fields : forall ty raw off fs,
+  plain_type ty = true -> skipn off raw = body fs -> Forall field_ok fs -> Forall ordinary fs -> NoDup (map fst fs) ->
+  exists data tags, data_of ty raw (Some off) = Some (data, tags) /\
+    forall f, In f fs -> ordinary_key (fst f) = true -> In (fst f, value_of (snd f)) data.
+Proof. exact data_of_plain_body. Qed.
+
 (* non-vacuity, and the whole Data() pipeline on one record of each decoded kind *)
 Example C12_example_execve :
   data_of 1309%N (L "audit(1.002:3): argc=2 a0=""ls"" a1=2D6C2061") (Some 12%nat)
@@ -40,3 +49,4 @@ Print Assumptions C12_hex_roundtrip.
 Print Assumptions C12_quoted_field_tokenised.
 Print Assumptions C12_body_tokenised.
 Print Assumptions C12_fields_extracted.
+Print Assumptions C12_data_keeps_plain_fields.
